@@ -15,4 +15,6 @@ def obligations(tier):
         obls += [lsr_obl(0, 8, 1, '2.0', cap=4), lsr_obl(1, 8, 1, '2.0', cap=4)]
     for (it, ot) in [(0, 0)]:      # the pull loop below src_callback_read (drain after end-of-input)
         obls.append(api_step(2, it, ot, 8, 2))
+    # src_reset then a block with another ratio, for the constant-rate converter types (recipe flags from the real soxr_quality_spec)
+    obls += [create_obl(4, 0, 2, orate='0.0', lsrid=i) for i in (1, 3, 4)] + [qspec_obl()]
     return obls
